@@ -195,11 +195,12 @@ func pmWant(ph []string, in string) *want {
 			}
 			return "pm:" + reason
 		}
+		na := ""
 		if nonASCII {
-			return "pm:" + fnfp(v) + ":non-ascii-phrase"
+			na = ":non-ascii-phrase"
 		}
 		if !v {
-			return "pm:false-positive"
+			return "pm:false-positive" + na
 		}
 		minL, maxL := len(ph[0]), len(ph[0])
 		for _, p := range ph {
@@ -231,6 +232,6 @@ func pmWant(ph []string, in string) *want {
 		case atEndOnly:
 			return "pm:false-negative:phrase-at-the-very-end"
 		}
-		return "pm:false-negative"
+		return "pm:false-negative" + na
 	}}
 }
